@@ -256,9 +256,6 @@ Proof. reflexivity. Qed.
 (* ------------------------------------------------------------------ *)
 (* fields                                                               *)
 
-Definition wv_fields_ok (Y M D h m s : N) : Prop :=
-  Y <= 4095 /\ M <= 15 /\ D <= 31 /\ h <= 31 /\ m <= 59 /\ s <= 59.
-
 Lemma wv_render_full Y M D h m s z : z <> 0 ->
   wv_render true Y M D h m s z =
   wv_text16 (Y / 1000) ((Y / 100) mod 10) ((Y / 10) mod 10) (Y mod 10) (M / 10) (M mod 10) (D / 10) (D mod 10)
@@ -379,10 +376,6 @@ Qed.
 
 (* ------------------------------------------------------------------ *)
 (* zone octets and letters that are no zone designator                  *)
-
-(* what the decoder prints for the zone octet *)
-Definition zone_suffix (z : N) : list N :=
-  if z =? 0 then [90] else if (z <? 65) || (90 <? z) || (z =? 74) then [] else [z].
 
 (* the decoder on the six specification octets, whatever the zone octet is *)
 Lemma dec_wv_datetime_any_zone Y M D h m s z : wv_fields_ok Y M D h m s ->
